@@ -741,3 +741,13 @@ Theorem svcb_condition_exact :
      svcb_plain (S (length msg)) msg off).
 Proof. exact svcb_converse_iff. Qed.
 Print Assumptions svcb_condition_exact.
+
+(* the octets the RFC layouts prescribe include WHERE names may be compressed: RFC 3597
+   section 4 allows compression pointers in RDATA only for the types of RFC 1035; the
+   compress flags of every pack() regenerated from zmsg.go say the same *)
+From Dns Require Import Spec.RfcSets.
+Theorem rdata_names_are_compressed_only_where_rfc3597_allows :
+  forallb (fun L => negb (existsb (fun pf : pfield => compresses (snd pf)) (tl_pack L))
+                    || existsb (String.eqb (tl_name L)) rfc1035_compressible) layouts = true.
+Proof. exact only_rfc1035_types_compress_rdata. Qed.
+Print Assumptions rdata_names_are_compressed_only_where_rfc3597_allows.
